@@ -1,3 +1,5 @@
+import Rp2.Proofs.ReportLinks
+import Rp2.Proofs.ReportTotal
 import Rp2.Proofs.Numbering
 import Rp2.Proofs.ReportProps
 /-! # C13 — the full report shows every transaction and fraction once, with computed values -/
@@ -13,4 +15,11 @@ theorem event_labels (fs : List Fraction) (i : Nat) (n : Numbered) (h : (numberF
     n.evN = (fs.filter (fun g => g.ev.row == n.f.ev.row)).length ∧ n.evK < n.evN := label_event fs i n h
 /-- rows written from a start row are consecutive and each entry is written once -/
 theorem rows_once (start : Nat) (l : List Int) : (numberFrom start l).map (·.1) = l := numberFrom_keys start l
+/-- **on the full-report model**: the In-Out sheet lists the window's in-, out- and intra-transactions, each exactly once, in the
+    order of the computed (time-sorted) sets -/
+theorem model_transactions_once (c : Computed) :
+    (shownRows c).map (·.1) = c.ins.map (·.row) ++ c.outs.map (·.row) ++ c.intras.map (·.row) := shownRows_keys c
+/-- the repaired generator always produces the report (no internal error whatever the computed data) -/
+theorem model_report_always_generated (holderOf : Nat → String) (period : Int) (cs : List Computed) :
+    ∃ rows, genFull true true holderOf period cs = .ok rows := genFull_total holderOf period cs
 end Rp2.C13
